@@ -13,7 +13,7 @@ func ZZ_C16_Compile() {
 	zzRun = zzEchoShell
 	zzEnviron = []string{"HOME=/h"}
 	t := &ast.Task{Task: "t", Location: &ast.Location{Taskfile: "/d/f.yml"}, Vars: ast.NewVars(), Env: ast.NewVars(), Method: "none"}
-	which := zz.Choose("null_entry_in", 10)
+	which := zz.Choose("null_entry_in", 12)
 	pick := func(k int) bool { return which == k }
 	t.Cmds = []*ast.Cmd{{Cmd: "echo a"}}
 	if pick(1) {
@@ -44,6 +44,17 @@ func ZZ_C16_Compile() {
 	if pick(9) {
 		t.Sources = []*ast.Glob{nil}
 		t.Platforms = []*ast.Platform{nil}
+	}
+	if pick(10) || pick(11) {
+		// a loop over the task's own sources / generates, which hold a null entry
+		t.Sources = []*ast.Glob{nil, {Glob: "a.src"}}
+		t.Generates = []*ast.Glob{nil, {Glob: "out"}}
+		from := "sources"
+		if pick(11) {
+			from = "generates"
+		}
+		t.Cmds = append(t.Cmds, &ast.Cmd{Cmd: "echo {{.ITEM}}", For: &ast.For{From: from}})
+		t.Deps = append(t.Deps, &ast.Dep{Task: "t2", For: &ast.For{From: from}})
 	}
 	tf := &ast.Taskfile{Vars: ast.NewVars(), Env: ast.NewVars(), Tasks: ast.NewTasks(), Run: "always", Method: "none"}
 	tf.Tasks.Set("t", t)
